@@ -1,1 +1,1011 @@
 // Kani contract harnesses for /repo/arrow-array/src/arithmetic.rs (child module: sees private items via super::)
+//
+// Units: ArrowNativeTypeOp (macro-generated impls; Kani sees the expansion) for
+//   i8 u8 i16 u16 i32 u32 i64 u64 i128, f16 f32 f64, i256, IntervalDayTime, IntervalMonthDayNano.
+// Spec side: exact integer arithmetic in a wider primitive type (i64 / i128 / u128); `x as T` is the
+// reduction mod 2^w (two's complement truncation).  Only where the guide says the solver cannot bear
+// a wide nonlinear spec (div/mod at >= 32 bits, everything at 128 bits, pow at >= 32 bits) the spec
+// side is core's own checked_*/wrapping_* operator - stated in the contract of those units.
+// Stubs: alloc::fmt::format -> spec::stub_format (error messages are not part of any contract).
+use super::*;
+use std::cmp::Ordering;
+#[path = "/verif/kani/support/spec.rs"]
+mod spec;
+use spec::*;
+
+fn is_dbz<T>(r: &Result<T, ArrowError>) -> bool { matches!(r, Err(ArrowError::DivideByZero)) }
+fn is_ovf<T>(r: &Result<T, ArrowError>) -> bool { matches!(r, Err(ArrowError::ArithmeticOverflow(_))) }
+
+// ================================================================================================
+// C12  add / sub / mul  vs exact arithmetic in a wide type $w (no operation below can overflow $w)
+// ================================================================================================
+
+// Contract (C12): for all a, b of type T, with exact = a (+|-|*) b computed in a wider integer type
+// in which the operation cannot overflow:
+//   T::op_checked(a,b) = Ok(r)  <=>  T::MIN <= exact <= T::MAX, and then r = exact;
+//   otherwise Err(ArithmeticOverflow) (never DivideByZero, never a wrapped value);
+//   T::op_wrapping(a,b) = exact mod 2^w (two's complement truncation of exact).
+macro_rules! int_binop {
+    ($name:ident, $t:ty, $w:ty, $checked:ident, $wrapping:ident, $op:tt) => {
+        #[kani::proof]
+        #[kani::stub(alloc::fmt::format, stub_format)]
+        fn $name() {
+            let a: $t = kani::any();
+            let b: $t = kani::any();
+            let exact: $w = (a as $w) $op (b as $w);
+            let fits = exact >= <$t>::MIN as $w && exact <= <$t>::MAX as $w;
+            let r = a.$checked(b);
+            match &r {
+                Ok(v) => assert!(fits && *v as $w == exact),
+                Err(_) => assert!(!fits),
+            }
+            assert!(r.is_ok() || is_ovf(&r));
+            assert!(a.$wrapping(b) == exact as $t);
+            kani::cover!(fits);
+            kani::cover!(!fits);
+            std::mem::forget(r);
+        }
+    };
+}
+// @unit name=i8_add props=C12 kind=complete fns=ArrowNativeTypeOp<i8>::add_checked,ArrowNativeTypeOp<i8>::add_wrapping
+int_binop!(i8_add, i8, i64, add_checked, add_wrapping, +);
+// @unit name=i8_sub props=C12 kind=complete fns=ArrowNativeTypeOp<i8>::sub_checked,ArrowNativeTypeOp<i8>::sub_wrapping
+int_binop!(i8_sub, i8, i64, sub_checked, sub_wrapping, -);
+// @unit name=i8_mul props=C12 kind=complete fns=ArrowNativeTypeOp<i8>::mul_checked,ArrowNativeTypeOp<i8>::mul_wrapping
+int_binop!(i8_mul, i8, i64, mul_checked, mul_wrapping, *);
+// @unit name=u8_add props=C12 kind=complete fns=ArrowNativeTypeOp<u8>::add_checked,ArrowNativeTypeOp<u8>::add_wrapping
+int_binop!(u8_add, u8, i64, add_checked, add_wrapping, +);
+// @unit name=u8_sub props=C12 kind=complete fns=ArrowNativeTypeOp<u8>::sub_checked,ArrowNativeTypeOp<u8>::sub_wrapping
+int_binop!(u8_sub, u8, i64, sub_checked, sub_wrapping, -);
+// @unit name=u8_mul props=C12 kind=complete fns=ArrowNativeTypeOp<u8>::mul_checked,ArrowNativeTypeOp<u8>::mul_wrapping
+int_binop!(u8_mul, u8, i64, mul_checked, mul_wrapping, *);
+// @unit name=i16_add props=C12 kind=complete fns=ArrowNativeTypeOp<i16>::add_checked,ArrowNativeTypeOp<i16>::add_wrapping
+int_binop!(i16_add, i16, i64, add_checked, add_wrapping, +);
+// @unit name=i16_sub props=C12 kind=complete fns=ArrowNativeTypeOp<i16>::sub_checked,ArrowNativeTypeOp<i16>::sub_wrapping
+int_binop!(i16_sub, i16, i64, sub_checked, sub_wrapping, -);
+// @unit name=i16_mul props=C12 kind=complete fns=ArrowNativeTypeOp<i16>::mul_checked,ArrowNativeTypeOp<i16>::mul_wrapping
+int_binop!(i16_mul, i16, i64, mul_checked, mul_wrapping, *);
+// @unit name=u16_add props=C12 kind=complete fns=ArrowNativeTypeOp<u16>::add_checked,ArrowNativeTypeOp<u16>::add_wrapping
+int_binop!(u16_add, u16, i64, add_checked, add_wrapping, +);
+// @unit name=u16_sub props=C12 kind=complete fns=ArrowNativeTypeOp<u16>::sub_checked,ArrowNativeTypeOp<u16>::sub_wrapping
+int_binop!(u16_sub, u16, i64, sub_checked, sub_wrapping, -);
+// @unit name=u16_mul props=C12 kind=complete fns=ArrowNativeTypeOp<u16>::mul_checked,ArrowNativeTypeOp<u16>::mul_wrapping
+int_binop!(u16_mul, u16, i64, mul_checked, mul_wrapping, *);
+// @unit name=i32_add props=C12 kind=complete fns=ArrowNativeTypeOp<i32>::add_checked,ArrowNativeTypeOp<i32>::add_wrapping
+int_binop!(i32_add, i32, i64, add_checked, add_wrapping, +);
+// @unit name=i32_sub props=C12 kind=complete fns=ArrowNativeTypeOp<i32>::sub_checked,ArrowNativeTypeOp<i32>::sub_wrapping
+int_binop!(i32_sub, i32, i64, sub_checked, sub_wrapping, -);
+// @unit name=i32_mul props=C12 kind=complete fns=ArrowNativeTypeOp<i32>::mul_checked,ArrowNativeTypeOp<i32>::mul_wrapping timeout=300
+int_binop!(i32_mul, i32, i64, mul_checked, mul_wrapping, *);
+// @unit name=u32_add props=C12 kind=complete fns=ArrowNativeTypeOp<u32>::add_checked,ArrowNativeTypeOp<u32>::add_wrapping
+int_binop!(u32_add, u32, i64, add_checked, add_wrapping, +);
+// @unit name=u32_sub props=C12 kind=complete fns=ArrowNativeTypeOp<u32>::sub_checked,ArrowNativeTypeOp<u32>::sub_wrapping
+int_binop!(u32_sub, u32, i64, sub_checked, sub_wrapping, -);
+// @unit name=u32_mul props=C12 kind=complete fns=ArrowNativeTypeOp<u32>::mul_checked,ArrowNativeTypeOp<u32>::mul_wrapping timeout=300
+int_binop!(u32_mul, u32, u64, mul_checked, mul_wrapping, *);
+// @unit name=i64_add props=C12 kind=complete fns=ArrowNativeTypeOp<i64>::add_checked,ArrowNativeTypeOp<i64>::add_wrapping
+int_binop!(i64_add, i64, i128, add_checked, add_wrapping, +);
+// @unit name=i64_sub props=C12 kind=complete fns=ArrowNativeTypeOp<i64>::sub_checked,ArrowNativeTypeOp<i64>::sub_wrapping
+int_binop!(i64_sub, i64, i128, sub_checked, sub_wrapping, -);
+// @unit name=i64_mul props=C12 kind=complete fns=ArrowNativeTypeOp<i64>::mul_checked,ArrowNativeTypeOp<i64>::mul_wrapping timeout=600
+int_binop!(i64_mul, i64, i128, mul_checked, mul_wrapping, *);
+// @unit name=u64_add props=C12 kind=complete fns=ArrowNativeTypeOp<u64>::add_checked,ArrowNativeTypeOp<u64>::add_wrapping
+int_binop!(u64_add, u64, i128, add_checked, add_wrapping, +);
+// @unit name=u64_sub props=C12 kind=complete fns=ArrowNativeTypeOp<u64>::sub_checked,ArrowNativeTypeOp<u64>::sub_wrapping
+int_binop!(u64_sub, u64, i128, sub_checked, sub_wrapping, -);
+// @unit name=u64_mul props=C12 kind=complete fns=ArrowNativeTypeOp<u64>::mul_checked,ArrowNativeTypeOp<u64>::mul_wrapping timeout=600
+int_binop!(u64_mul, u64, u128, mul_checked, mul_wrapping, *);
+
+// Contract (C12): for all a of type T, with exact = 0 - a computed in a wider integer type:
+//   neg_checked(a) = Ok(r) <=> T::MIN <= exact <= T::MAX and r = exact (signed: a != MIN; unsigned: a = 0);
+//   otherwise Err(ArithmeticOverflow); neg_wrapping(a) = exact mod 2^w.
+macro_rules! int_neg {
+    ($name:ident, $t:ty, $w:ty) => {
+        #[kani::proof]
+        #[kani::stub(alloc::fmt::format, stub_format)]
+        fn $name() {
+            let a: $t = kani::any();
+            let exact: $w = 0 - (a as $w);
+            let fits = exact >= <$t>::MIN as $w && exact <= <$t>::MAX as $w;
+            let r = a.neg_checked();
+            match &r {
+                Ok(v) => assert!(fits && *v as $w == exact),
+                Err(_) => assert!(!fits),
+            }
+            assert!(r.is_ok() || is_ovf(&r));
+            assert!(a.neg_wrapping() == exact as $t);
+            kani::cover!(fits);
+            kani::cover!(!fits);
+            std::mem::forget(r);
+        }
+    };
+}
+// @unit name=i8_neg props=C12 kind=complete fns=ArrowNativeTypeOp<i8>::neg_checked,ArrowNativeTypeOp<i8>::neg_wrapping
+int_neg!(i8_neg, i8, i64);
+// @unit name=u8_neg props=C12 kind=complete fns=ArrowNativeTypeOp<u8>::neg_checked,ArrowNativeTypeOp<u8>::neg_wrapping
+int_neg!(u8_neg, u8, i64);
+// @unit name=i16_neg props=C12 kind=complete fns=ArrowNativeTypeOp<i16>::neg_checked,ArrowNativeTypeOp<i16>::neg_wrapping
+int_neg!(i16_neg, i16, i64);
+// @unit name=u16_neg props=C12 kind=complete fns=ArrowNativeTypeOp<u16>::neg_checked,ArrowNativeTypeOp<u16>::neg_wrapping
+int_neg!(u16_neg, u16, i64);
+// @unit name=i32_neg props=C12 kind=complete fns=ArrowNativeTypeOp<i32>::neg_checked,ArrowNativeTypeOp<i32>::neg_wrapping
+int_neg!(i32_neg, i32, i64);
+// @unit name=u32_neg props=C12 kind=complete fns=ArrowNativeTypeOp<u32>::neg_checked,ArrowNativeTypeOp<u32>::neg_wrapping
+int_neg!(u32_neg, u32, i64);
+// @unit name=i64_neg props=C12 kind=complete fns=ArrowNativeTypeOp<i64>::neg_checked,ArrowNativeTypeOp<i64>::neg_wrapping
+int_neg!(i64_neg, i64, i128);
+// @unit name=u64_neg props=C12 kind=complete fns=ArrowNativeTypeOp<u64>::neg_checked,ArrowNativeTypeOp<u64>::neg_wrapping
+int_neg!(u64_neg, u64, i128);
+
+
+// ================================================================================================
+// C12  div / mod at 8 and 16 bits vs exact truncated division in i32
+// ================================================================================================
+
+// Contract (C12): for all a, b of an 8/16-bit type T; q = exact truncated quotient of a by b computed
+// in i32 (b != 0):
+//   div_checked(a,b) = Err(DivideByZero) <=> b = 0;  = Err(ArithmeticOverflow) <=> b != 0 and q is not
+//   representable in T (signed MIN / -1 only);  = Ok(v) <=> b != 0 and q representable, and then v = q.
+//   For b != 0 (documented precondition; b = 0 panics): div_wrapping(a,b) = q mod 2^w.
+macro_rules! int_div_exact {
+    ($name:ident, $t:ty) => {
+        #[kani::proof]
+        #[kani::stub(alloc::fmt::format, stub_format)]
+        fn $name() {
+            let a: $t = kani::any();
+            let b: $t = kani::any();
+            let d = a.div_checked(b);
+            assert!(is_dbz(&d) == (b == 0));
+            if b != 0 {
+                let q = (a as i32) / (b as i32);
+                let qfits = q >= <$t>::MIN as i32 && q <= <$t>::MAX as i32;
+                match &d {
+                    Ok(v) => assert!(qfits && *v as i32 == q),
+                    Err(_) => assert!(!qfits),
+                }
+                assert!(d.is_ok() || is_ovf(&d));
+                assert!(a.div_wrapping(b) == q as $t);
+                kani::cover!(<$t>::MIN == 0 || (qfits && q < 0));
+                kani::cover!(qfits && q > 1);
+                kani::cover!(<$t>::MIN == 0 || !qfits); // signed only: the single overflow point MIN / -1
+            }
+            kani::cover!(b == 0);
+            std::mem::forget(d);
+        }
+    };
+}
+// Contract (C12): for all a, b of an 8/16-bit type T; (q, r) = exact truncated quotient and remainder
+// of a by b computed in i32 (b != 0):
+//   mod_checked(a,b) = Err(DivideByZero) <=> b = 0;  = Err(ArithmeticOverflow) <=> b != 0 and the
+//   associated quotient q is not representable (signed MIN % -1 only: Rust's checked_rem convention - the
+//   remainder 0 itself would be representable, the code reports an error, never a wrong value);
+//   = Ok(v) otherwise, and then v = r.  For b != 0: mod_wrapping(a,b) = r (in particular MIN % -1 = 0).
+macro_rules! int_mod_exact {
+    ($name:ident, $t:ty) => {
+        #[kani::proof]
+        #[kani::stub(alloc::fmt::format, stub_format)]
+        fn $name() {
+            let a: $t = kani::any();
+            let b: $t = kani::any();
+            let m = a.mod_checked(b);
+            assert!(is_dbz(&m) == (b == 0));
+            if b != 0 {
+                let (q, r) = ((a as i32) / (b as i32), (a as i32) % (b as i32));
+                let qfits = q >= <$t>::MIN as i32 && q <= <$t>::MAX as i32;
+                match &m {
+                    Ok(v) => assert!(qfits && *v as i32 == r),
+                    Err(_) => assert!(!qfits),
+                }
+                assert!(m.is_ok() || is_ovf(&m));
+                assert!(a.mod_wrapping(b) as i32 == r);
+                kani::cover!(qfits && r < 0 || <$t>::MIN == 0);
+                kani::cover!(qfits && r > 0);
+                kani::cover!(<$t>::MIN == 0 || !qfits);
+            }
+            kani::cover!(b == 0);
+            std::mem::forget(m);
+        }
+    };
+}
+// Lemma (spec validation, C12): the wide `/` and `%` used as the spec above are the mathematical
+// truncated division: (q, r) is the unique pair with a = q*b + r, |r| < |b|, r = 0 or sign(r) = sign(a).
+macro_rules! trunc_div_lemma {
+    ($name:ident, $t:ty) => {
+        #[kani::proof]
+        fn $name() {
+            let a: $t = kani::any();
+            let b: $t = kani::any();
+            kani::assume(b != 0);
+            let (wa, wb) = (a as i32, b as i32);
+            let (q, r) = (wa / wb, wa % wb);
+            assert!(q * wb + r == wa && r.abs() < wb.abs() && (r == 0 || (r < 0) == (wa < 0)));
+            // uniqueness: any other (q2, r2) with the same three properties equals (q, r)
+            let q2: i32 = kani::any();
+            kani::assume(q2 >= -65536 && q2 <= 65536);
+            let r2 = wa - q2 * wb;
+            if r2.abs() < wb.abs() && (r2 == 0 || (r2 < 0) == (wa < 0)) {
+                assert!(q2 == q && r2 == r);
+            }
+            kani::cover!(r != 0 && (q < 0 || <$t>::MIN == 0));
+        }
+    };
+}
+// @unit name=i8_div props=C12 kind=complete fns=ArrowNativeTypeOp<i8>::div_checked,ArrowNativeTypeOp<i8>::div_wrapping
+int_div_exact!(i8_div, i8);
+// @unit name=u8_div props=C12 kind=complete fns=ArrowNativeTypeOp<u8>::div_checked,ArrowNativeTypeOp<u8>::div_wrapping
+int_div_exact!(u8_div, u8);
+// @unit name=i16_div props=C12 kind=complete fns=ArrowNativeTypeOp<i16>::div_checked,ArrowNativeTypeOp<i16>::div_wrapping tier=thorough timeout=900
+int_div_exact!(i16_div, i16);
+// @unit name=u16_div props=C12 kind=complete fns=ArrowNativeTypeOp<u16>::div_checked,ArrowNativeTypeOp<u16>::div_wrapping tier=thorough timeout=900 confirmed=0
+int_div_exact!(u16_div, u16);
+// @unit name=i8_mod props=C12 kind=complete fns=ArrowNativeTypeOp<i8>::mod_checked,ArrowNativeTypeOp<i8>::mod_wrapping
+int_mod_exact!(i8_mod, i8);
+// @unit name=u8_mod props=C12 kind=complete fns=ArrowNativeTypeOp<u8>::mod_checked,ArrowNativeTypeOp<u8>::mod_wrapping
+int_mod_exact!(u8_mod, u8);
+// @unit name=i16_mod props=C12 kind=complete fns=ArrowNativeTypeOp<i16>::mod_checked,ArrowNativeTypeOp<i16>::mod_wrapping tier=thorough timeout=900 confirmed=0
+int_mod_exact!(i16_mod, i16);
+// @unit name=u16_mod props=C12 kind=complete fns=ArrowNativeTypeOp<u16>::mod_checked,ArrowNativeTypeOp<u16>::mod_wrapping tier=thorough timeout=900 confirmed=0
+int_mod_exact!(u16_mod, u16);
+// @unit name=trunc_div_lemma_i8 props=C12 kind=complete fns=ArrowNativeTypeOp<i8>::div_checked,ArrowNativeTypeOp<i8>::mod_checked
+trunc_div_lemma!(trunc_div_lemma_i8, i8);
+// @unit name=trunc_div_lemma_u8 props=C12 kind=complete fns=ArrowNativeTypeOp<u8>::div_checked,ArrowNativeTypeOp<u8>::mod_checked
+trunc_div_lemma!(trunc_div_lemma_u8, u8);
+
+// ================================================================================================
+// C12  div / mod at >= 32 bits (and i128): error structure exact, values by divider-free facts
+// ================================================================================================
+
+// Contract (C12) at widths where CBMC cannot compare two dividers (measured: i32 quotient vs i64
+// quotient, core's checked_div against itself, and even checked_div against wrapping_div of the same
+// operands do not finish - a divider is encoded with fresh quotient/remainder variables constrained by
+// a multiplication, so two instances are never shared).  For all a, b:
+//   div_checked / mod_checked = Err(DivideByZero) <=> b = 0;  = Err(ArithmeticOverflow) <=> a = MIN and
+//   b = -1 (signed; never for unsigned) - the only point whose exact quotient is not representable;
+//   = Ok otherwise.  For b != 0: div_wrapping / mod_wrapping do not panic; MIN / -1 wraps to MIN, MIN % -1 = 0.
+//   VALUE of the quotient q and remainder r: ASSUMPTION - core's `/` and `%` are trusted at this width
+//   (the same macro expansion is proved exact at 8 and 16 bits above); pinned here by facts that need no
+//   second divider: |r| < |b|, r = 0 or sign(r) = sign(a);  b = 1 => (q, r) = (a, 0) for the checked and
+//   the wrapping forms;  b = -1 => (-a, 0)  (so swapped operands or a dropped negation are visible).
+// $w is a wider signed type used only to take absolute values and compare.
+macro_rules! int_divmod_wide {
+    ($name:ident, $t:ty, $w:ty) => {
+        #[kani::proof]
+        #[kani::stub(alloc::fmt::format, stub_format)]
+        fn $name() {
+            let a: $t = kani::any();
+            let b: $t = kani::any();
+            let d = a.div_checked(b);
+            let m = a.mod_checked(b);
+            assert!(is_dbz(&d) == (b == 0) && is_dbz(&m) == (b == 0));
+            let signed = <$t>::MIN != 0;
+            let (wa, wb) = (a as $w, b as $w);
+            let min_by_m1 = signed && a == <$t>::MIN && wb == -1;
+            if b != 0 {
+                assert!(is_ovf(&d) == min_by_m1 && is_ovf(&m) == min_by_m1);
+                assert!(d.is_ok() == !min_by_m1 && m.is_ok() == !min_by_m1);
+                if min_by_m1 { assert!(a.div_wrapping(b) == <$t>::MIN && a.mod_wrapping(b) == 0); }
+                if wb == 1 { assert!(a.div_wrapping(b) == a && a.mod_wrapping(b) == 0); }
+                if let (Ok(q), Ok(r)) = (&d, &m) {
+                    let (q, r) = (*q as $w, *r as $w);
+                    assert!(r.abs() < wb.abs() && (r == 0 || (r < 0) == (wa < 0)));
+                    if wb == 1 { assert!(q == wa && r == 0); }
+                    if wb == -1 { assert!(q == -wa && r == 0); }
+                }
+            }
+            kani::cover!(b == 0);
+            kani::cover!(d.is_ok() && wa.abs() > wb.abs() && wb.abs() > 2);
+            kani::cover!(!signed || min_by_m1);
+            std::mem::forget((d, m));
+        }
+    };
+}
+// @unit name=i32_divmod props=C12 kind=complete fns=ArrowNativeTypeOp<i32>::div_checked,ArrowNativeTypeOp<i32>::div_wrapping,ArrowNativeTypeOp<i32>::mod_checked,ArrowNativeTypeOp<i32>::mod_wrapping
+int_divmod_wide!(i32_divmod, i32, i64);
+// @unit name=u32_divmod props=C12 kind=complete fns=ArrowNativeTypeOp<u32>::div_checked,ArrowNativeTypeOp<u32>::div_wrapping,ArrowNativeTypeOp<u32>::mod_checked,ArrowNativeTypeOp<u32>::mod_wrapping
+int_divmod_wide!(u32_divmod, u32, i64);
+// @unit name=i64_divmod props=C12 kind=complete fns=ArrowNativeTypeOp<i64>::div_checked,ArrowNativeTypeOp<i64>::div_wrapping,ArrowNativeTypeOp<i64>::mod_checked,ArrowNativeTypeOp<i64>::mod_wrapping
+int_divmod_wide!(i64_divmod, i64, i128);
+// @unit name=u64_divmod props=C12 kind=complete fns=ArrowNativeTypeOp<u64>::div_checked,ArrowNativeTypeOp<u64>::div_wrapping,ArrowNativeTypeOp<u64>::mod_checked,ArrowNativeTypeOp<u64>::mod_wrapping
+int_divmod_wide!(u64_divmod, u64, i128);
+
+// Contract (C12) for i128 div/mod: as above (error structure exact: DivideByZero <=> b = 0, Overflow <=>
+// a = MIN and b = -1, wrapping forms at that point MIN and 0); values pinned by: r = 0 or sign(r) =
+// sign(a); b = 1 => (a, 0) (checked and wrapping); b = -1 => r = 0.  ASSUMPTION: core's 128-bit `/` `%`
+// trusted for the value.
+// @unit name=i128_divmod props=C12 kind=complete fns=ArrowNativeTypeOp<i128>::div_checked,ArrowNativeTypeOp<i128>::div_wrapping,ArrowNativeTypeOp<i128>::mod_checked,ArrowNativeTypeOp<i128>::mod_wrapping timeout=1500
+#[kani::proof]
+#[kani::stub(alloc::fmt::format, stub_format)]
+fn i128_divmod() {
+    let a: i128 = kani::any();
+    let b: i128 = kani::any();
+    let d = a.div_checked(b);
+    let m = a.mod_checked(b);
+    assert!(is_dbz(&d) == (b == 0) && is_dbz(&m) == (b == 0));
+    let min_by_m1 = a == i128::MIN && b == -1;
+    if b != 0 {
+        assert!(is_ovf(&d) == min_by_m1 && is_ovf(&m) == min_by_m1);
+        assert!(d.is_ok() == !min_by_m1 && m.is_ok() == !min_by_m1);
+        if min_by_m1 { assert!(a.div_wrapping(b) == i128::MIN && a.mod_wrapping(b) == 0); }
+        if b == 1 { assert!(a.div_wrapping(b) == a && a.mod_wrapping(b) == 0); }
+        if let (Ok(q), Ok(r)) = (&d, &m) {
+            assert!(*r == 0 || (*r < 0) == (a < 0));
+            if b == 1 { assert!(*q == a && *r == 0); }
+            if b == -1 { assert!(*r == 0); }
+        }
+    }
+    kani::cover!(b == 0);
+    kani::cover!(d.is_ok() && b > 2 && a > b);
+    kani::cover!(min_by_m1);
+    std::mem::forget((d, m));
+}
+
+/// two base-2^64 digits of an i128, most significant one signed (same model as support/i256_spec.rs)
+fn add128_spec(a: i128, b: i128, sub: bool) -> (i128, bool) {
+    let (al, ah, bl, bh) = (a as u64 as i128, (a >> 64) as i64 as i128, b as u64 as i128, (b >> 64) as i64 as i128);
+    let s0 = if sub { al - bl } else { al + bl };
+    let t = if sub { ah - bh } else { ah + bh } + (s0 >> 64);
+    let ovf = t < i64::MIN as i128 || t > i64::MAX as i128;
+    ((((t as u64 as u128) << 64) | (s0 as u64 as u128)) as i128, ovf)
+}
+// Contract (C12): i128 add / sub / neg against schoolbook arithmetic on two base-2^64 digits (top digit
+// signed, carries in i128 - no primitive is wider than 128 bits): op_checked = Ok(s) <=> the exact
+// result lies in [i128::MIN, i128::MAX] and s is it, else Err(ArithmeticOverflow); op_wrapping = exact
+// result mod 2^128; neg_checked(a) fails exactly for a = MIN.
+// @unit name=i128_addsub props=C12 kind=complete fns=ArrowNativeTypeOp<i128>::add_checked,ArrowNativeTypeOp<i128>::add_wrapping,ArrowNativeTypeOp<i128>::sub_checked,ArrowNativeTypeOp<i128>::sub_wrapping,ArrowNativeTypeOp<i128>::neg_checked,ArrowNativeTypeOp<i128>::neg_wrapping
+#[kani::proof]
+#[kani::stub(alloc::fmt::format, stub_format)]
+fn i128_addsub() {
+    let a: i128 = kani::any();
+    let b: i128 = kani::any();
+    let (s, so) = add128_spec(a, b, false);
+    let (t, to) = add128_spec(a, b, true);
+    let (n, no) = add128_spec(0, a, true);
+    let (ra, rs, rn) = (a.add_checked(b), a.sub_checked(b), a.neg_checked());
+    assert!(matches!(ra, Ok(v) if v == s) == !so && is_ovf(&ra) == so && a.add_wrapping(b) == s);
+    assert!(matches!(rs, Ok(v) if v == t) == !to && is_ovf(&rs) == to && a.sub_wrapping(b) == t);
+    assert!(matches!(rn, Ok(v) if v == n) == !no && is_ovf(&rn) == no && a.neg_wrapping() == n);
+    assert!(no == (a == i128::MIN));
+    kani::cover!(so && a > 0);
+    kani::cover!(so && a < 0);
+    kani::cover!(to);
+    kani::cover!(!so && (a as u64).checked_add(b as u64).is_none());
+    std::mem::forget((ra, rs, rn));
+}
+// Contract (C12), bounded: i128 mul.  The exact 256-bit product is out of reach, and core's checked_mul
+// against itself did not finish either, so: (a) for operands in the i64 range (sign extensions of i64
+// values) the product is exact in i128: mul_checked = Ok(a*b), mul_wrapping = a*b, never Err;  (b) for
+// ALL a and pinned b: b = 0 => Ok(0); b = 1 => Ok(a); b = -1 => Ok(-a) unless a = MIN (Err(Overflow), wrapping
+// MIN); b = 2 => Ok(a + a) iff that sum does not overflow (digit-model sum), else Err(Overflow), wrapping =
+// sum mod 2^128.
+// @unit name=i128_mul props=C12 kind=bounded bound=operands_in_i64_range_(plus_all_a_for_b_in_0,1,-1,2) fns=ArrowNativeTypeOp<i128>::mul_checked,ArrowNativeTypeOp<i128>::mul_wrapping timeout=1500
+#[kani::proof]
+#[kani::stub(alloc::fmt::format, stub_format)]
+fn i128_mul() {
+    let (x, y): (i64, i64) = (kani::any(), kani::any());
+    let exact = x as i128 * y as i128;
+    let r0 = (x as i128).mul_checked(y as i128);
+    assert!(matches!(r0, Ok(v) if v == exact) && (x as i128).mul_wrapping(y as i128) == exact);
+    let a: i128 = kani::any();
+    let k: u8 = kani::any();
+    kani::assume(k < 4);
+    let b: i128 = if k == 0 { 0 } else if k == 1 { 1 } else if k == 2 { -1 } else { 2 };
+    let r = a.mul_checked(b);
+    let w = a.mul_wrapping(b);
+    if k == 0 { assert!(matches!(r, Ok(0)) && w == 0); }
+    if k == 1 { assert!(matches!(r, Ok(v) if v == a) && w == a); }
+    if k == 2 { let (n, o) = add128_spec(0, a, true); assert!(w == n && if o { is_ovf(&r) } else { matches!(r, Ok(v) if v == n) }); }
+    if k == 3 { let (s2, o) = add128_spec(a, a, false); assert!(w == s2 && if o { is_ovf(&r) } else { matches!(r, Ok(v) if v == s2) }); }
+    kani::cover!(k == 2 && r.is_err());
+    kani::cover!(k == 3 && r.is_err());
+    kani::cover!(k == 3 && r.is_ok() && a < -5);
+    kani::cover!(exact < i64::MIN as i128);
+    std::mem::forget((r0, r));
+}
+
+// ================================================================================================
+// C12  pow
+// ================================================================================================
+
+/// exact a^exp if it lies in [min, max], else None.  a in {0, 1, -1}: closed form.  |a| >= 2: then
+/// |a|^exp >= 2^exp, so exp >= w (with max < 2^w) is out of range, and for exp < w the naive product
+/// is formed step by step; since |a| >= 2 the magnitude strictly grows, so once a prefix product is
+/// out of range (magnitude >= 2^(w-1)) every longer product is too.  No step overflows i64 for w <= 16.
+fn pow_exact(a: i64, exp: u32, min: i64, max: i64, w: u32) -> Option<i64> {
+    if a == 0 { return Some(if exp == 0 { 1 } else { 0 }); }
+    if a == 1 { return Some(1); }
+    if a == -1 { return Some(if exp % 2 == 0 { 1 } else { -1 }); }
+    if exp >= w { return None; }
+    let mut acc: i64 = 1;
+    let mut i = 0;
+    while i < exp {
+        acc *= a;
+        if acc < min || acc > max { return None; }
+        i += 1;
+    }
+    Some(acc)
+}
+
+// Contract (C12): for all a of an 8/16-bit type T and ALL exponents exp: u32:
+//   pow_checked(a, exp) = Ok(r) <=> the exact power a^exp (0^0 = 1) lies in [T::MIN, T::MAX], and then
+//   r = a^exp; otherwise Err(ArithmeticOverflow).  Whenever the exact power is representable,
+//   pow_wrapping(a, exp) equals it.  (Exact power: `pow_exact` above - repeated multiplication in i64.)
+macro_rules! int_pow_checked {
+    ($name:ident, $t:ty, $w:expr) => {
+        #[kani::proof]
+        #[kani::unwind(34)]
+        #[kani::stub(alloc::fmt::format, stub_format)]
+        fn $name() {
+            let a: $t = kani::any();
+            let exp: u32 = kani::any();
+            let want = pow_exact(a as i64, exp, <$t>::MIN as i64, <$t>::MAX as i64, $w);
+            let r = a.pow_checked(exp);
+            match (&r, want) {
+                (Ok(v), Some(e)) => assert!(*v as i64 == e && a.pow_wrapping(exp) as i64 == e),
+                (Err(_), None) => assert!(is_ovf(&r)),
+                _ => assert!(false),
+            }
+            kani::cover!(want.is_some() && exp > 3 && a > 1);
+            kani::cover!(want.is_none() && exp < $w);
+            kani::cover!(want.is_none() && exp > 1000);
+            kani::cover!(want.is_some() && exp > 1000);
+            std::mem::forget(r);
+        }
+    };
+}
+// @unit name=i8_pow_checked props=C12 kind=complete fns=ArrowNativeTypeOp<i8>::pow_checked,ArrowNativeTypeOp<i8>::pow_wrapping
+int_pow_checked!(i8_pow_checked, i8, 8);
+// @unit name=u8_pow_checked props=C12 kind=complete fns=ArrowNativeTypeOp<u8>::pow_checked,ArrowNativeTypeOp<u8>::pow_wrapping
+int_pow_checked!(u8_pow_checked, u8, 8);
+// @unit name=i16_pow_checked props=C12 kind=complete fns=ArrowNativeTypeOp<i16>::pow_checked,ArrowNativeTypeOp<i16>::pow_wrapping tier=thorough timeout=900
+int_pow_checked!(i16_pow_checked, i16, 16);
+// @unit name=u16_pow_checked props=C12 kind=complete fns=ArrowNativeTypeOp<u16>::pow_checked,ArrowNativeTypeOp<u16>::pow_wrapping tier=thorough timeout=900
+int_pow_checked!(u16_pow_checked, u16, 16);
+
+// Contract (C12): for all a of an 8/16-bit type T and exp <= 8: pow_wrapping(a, exp) = a^exp mod 2^w,
+// the spec being the naive exp-fold product in i64 reduced mod 2^w after each step (reduction mod 2^w
+// is a ring homomorphism).  Bounded in the exponent only; the unbounded-exponent statement for
+// representable powers is in T_pow_checked.
+macro_rules! int_pow_wrapping {
+    ($name:ident, $t:ty) => {
+        #[kani::proof]
+        #[kani::unwind(34)]
+        fn $name() {
+            let a: $t = kani::any();
+            let exp: u32 = kani::any();
+            kani::assume(exp <= 8);
+            let mut acc: i64 = 1;
+            let mut i = 0;
+            while i < exp {
+                acc = ((acc * (a as i64)) as $t) as i64;
+                i += 1;
+            }
+            assert!(a.pow_wrapping(exp) == acc as $t);
+            kani::cover!(exp == 8 && a.pow_wrapping(exp) != 0 && a != 1);
+            kani::cover!(exp == 0);
+        }
+    };
+}
+// @unit name=i8_pow_wrapping props=C12 kind=bounded bound=exp<=8 fns=ArrowNativeTypeOp<i8>::pow_wrapping
+int_pow_wrapping!(i8_pow_wrapping, i8);
+// @unit name=u8_pow_wrapping props=C12 kind=bounded bound=exp<=8 fns=ArrowNativeTypeOp<u8>::pow_wrapping
+int_pow_wrapping!(u8_pow_wrapping, u8);
+// @unit name=i16_pow_wrapping props=C12 kind=bounded bound=exp<=8 fns=ArrowNativeTypeOp<i16>::pow_wrapping tier=thorough timeout=900
+int_pow_wrapping!(i16_pow_wrapping, i16);
+// @unit name=u16_pow_wrapping props=C12 kind=bounded bound=exp<=8 fns=ArrowNativeTypeOp<u16>::pow_wrapping tier=thorough timeout=900
+int_pow_wrapping!(u16_pow_wrapping, u16);
+
+// Contract (C12) for pow at >= 32 bits, bounded in the exponent: for each exponent e in {0, 1, 2} and
+// all a: pow_checked(a, e) = Ok(r) <=> the exact power (1, a, a*a computed in the wide type $w) is
+// representable, and then r is it, else Err(ArithmeticOverflow); pow_wrapping = exact power mod 2^w.
+// (Symbolic larger exponents at this width did not finish: 32 unrolled wide squarings.)
+macro_rules! int_pow_exp012 {
+    ($name:ident, $t:ty, $w:ty) => {
+        #[kani::proof]
+        #[kani::unwind(4)]
+        #[kani::stub(alloc::fmt::format, stub_format)]
+        fn $name() {
+            let a: $t = kani::any();
+            let wa = a as $w;
+            let (r0, r1, r2) = (a.pow_checked(0), a.pow_checked(1), a.pow_checked(2));
+            assert!(matches!(r0, Ok(1)) && a.pow_wrapping(0) == 1);
+            assert!(matches!(r1, Ok(v) if v == a) && a.pow_wrapping(1) == a);
+            let exact: $w = wa * wa;
+            let fits = exact >= <$t>::MIN as $w && exact <= <$t>::MAX as $w;
+            match &r2 {
+                Ok(v) => assert!(fits && *v as $w == exact),
+                Err(_) => assert!(!fits && is_ovf(&r2)),
+            }
+            assert!(a.pow_wrapping(2) == exact as $t);
+            kani::cover!(!fits);
+            kani::cover!(fits && wa > 1000);
+            std::mem::forget((r0, r1, r2));
+        }
+    };
+}
+// Contract (C12): powers of two at the representability edge, for ALL exponents e: u32:
+// pow_checked(2, e) = Ok(1 << e) <=> 2^e <= T::MAX (e <= w-2 signed, e <= w-1 unsigned), else
+// Err(ArithmeticOverflow); pow_wrapping(2, e) = 1 << e for e < w and 0 for e >= w; and for signed T
+// pow_checked(-2, w-1) = Ok(T::MIN).  (Catches checked <-> wrapping swaps at any exponent.)
+macro_rules! int_pow_two {
+    ($name:ident, $t:ty) => {
+        #[kani::proof]
+        #[kani::unwind(34)]
+        #[kani::stub(alloc::fmt::format, stub_format)]
+        fn $name() {
+            let e: u32 = kani::any();
+            let two: $t = 2;
+            let bits = <$t>::BITS;
+            let signed = <$t>::MIN != 0;
+            let max_e = if signed { bits - 2 } else { bits - 1 };
+            let p = two.pow_checked(e);
+            if e <= max_e { assert!(matches!(p, Ok(v) if v == (1 as $t) << e)); } else { assert!(is_ovf(&p)); }
+            assert!(two.pow_wrapping(e) == if e < bits { (1 as $t) << e } else { 0 });
+            if signed {
+                let m2: $t = (0 as $t).wrapping_sub(2);
+                let q = m2.pow_checked(bits - 1);
+                assert!(matches!(q, Ok(v) if v == <$t>::MIN));
+                std::mem::forget(q);
+            }
+            kani::cover!(e == max_e);
+            kani::cover!(e == max_e + 1);
+            kani::cover!(e > 1000);
+            std::mem::forget(p);
+        }
+    };
+}
+// @unit name=i32_pow props=C12 kind=bounded bound=exp<=2 fns=ArrowNativeTypeOp<i32>::pow_checked,ArrowNativeTypeOp<i32>::pow_wrapping
+int_pow_exp012!(i32_pow, i32, i64);
+// @unit name=u32_pow props=C12 kind=bounded bound=exp<=2 fns=ArrowNativeTypeOp<u32>::pow_checked,ArrowNativeTypeOp<u32>::pow_wrapping
+int_pow_exp012!(u32_pow, u32, u64);
+// @unit name=i64_pow props=C12 kind=bounded bound=exp<=2 fns=ArrowNativeTypeOp<i64>::pow_checked,ArrowNativeTypeOp<i64>::pow_wrapping timeout=900
+int_pow_exp012!(i64_pow, i64, i128);
+// @unit name=u64_pow props=C12 kind=bounded bound=exp<=2 fns=ArrowNativeTypeOp<u64>::pow_checked,ArrowNativeTypeOp<u64>::pow_wrapping timeout=900
+int_pow_exp012!(u64_pow, u64, u128);
+// @unit name=i32_pow_two props=C12 kind=bounded bound=base_2_(all_exponents) fns=ArrowNativeTypeOp<i32>::pow_checked,ArrowNativeTypeOp<i32>::pow_wrapping
+int_pow_two!(i32_pow_two, i32);
+// @unit name=u32_pow_two props=C12 kind=bounded bound=base_2_(all_exponents) fns=ArrowNativeTypeOp<u32>::pow_checked,ArrowNativeTypeOp<u32>::pow_wrapping
+int_pow_two!(u32_pow_two, u32);
+// @unit name=i64_pow_two props=C12 kind=bounded bound=base_2_(all_exponents) fns=ArrowNativeTypeOp<i64>::pow_checked,ArrowNativeTypeOp<i64>::pow_wrapping
+int_pow_two!(i64_pow_two, i64);
+// @unit name=u64_pow_two props=C12 kind=bounded bound=base_2_(all_exponents) fns=ArrowNativeTypeOp<u64>::pow_checked,ArrowNativeTypeOp<u64>::pow_wrapping
+int_pow_two!(u64_pow_two, u64);
+// @unit name=i128_pow_two props=C12 kind=bounded bound=base_2_(all_exponents) fns=ArrowNativeTypeOp<i128>::pow_checked,ArrowNativeTypeOp<i128>::pow_wrapping
+int_pow_two!(i128_pow_two, i128);
+
+// ================================================================================================
+// C10  integer order and its projections; constants
+// ================================================================================================
+
+// Contract (C10): for all a, b of integer type T: compare(a,b) is the mathematical order of the two
+// integers (evaluated with `<` / `==` on their values widened to i128; for i128 on the values
+// themselves), and is_eq / is_ne / is_lt / is_le / is_gt / is_ge are exactly its six projections.
+macro_rules! int_order {
+    ($name:ident, $t:ty) => {
+        #[kani::proof]
+        fn $name() {
+            let a: $t = kani::any();
+            let b: $t = kani::any();
+            let (wa, wb) = (a as i128, b as i128);
+            let want = if wa < wb { Ordering::Less } else if wa == wb { Ordering::Equal } else { Ordering::Greater };
+            assert!(a.compare(b) == want);
+            assert!(a.is_eq(b) == (wa == wb));
+            assert!(a.is_ne(b) == (wa != wb));
+            assert!(a.is_lt(b) == (wa < wb));
+            assert!(a.is_le(b) == (wa <= wb));
+            assert!(a.is_gt(b) == (wa > wb));
+            assert!(a.is_ge(b) == (wa >= wb));
+            kani::cover!(wa < wb);
+            kani::cover!(wa == wb);
+            kani::cover!(wa > wb);
+        }
+    };
+}
+// @unit name=i8_order props=C10 kind=complete fns=ArrowNativeTypeOp<i8>::compare,ArrowNativeTypeOp<i8>::is_eq,ArrowNativeTypeOp::is_ne,ArrowNativeTypeOp::is_lt,ArrowNativeTypeOp::is_le,ArrowNativeTypeOp::is_gt,ArrowNativeTypeOp::is_ge
+int_order!(i8_order, i8);
+// @unit name=u8_order props=C10 kind=complete fns=ArrowNativeTypeOp<u8>::compare,ArrowNativeTypeOp<u8>::is_eq,ArrowNativeTypeOp::is_ne,ArrowNativeTypeOp::is_lt,ArrowNativeTypeOp::is_le,ArrowNativeTypeOp::is_gt,ArrowNativeTypeOp::is_ge
+int_order!(u8_order, u8);
+// @unit name=i16_order props=C10 kind=complete fns=ArrowNativeTypeOp<i16>::compare,ArrowNativeTypeOp<i16>::is_eq,ArrowNativeTypeOp::is_ne,ArrowNativeTypeOp::is_lt,ArrowNativeTypeOp::is_le,ArrowNativeTypeOp::is_gt,ArrowNativeTypeOp::is_ge
+int_order!(i16_order, i16);
+// @unit name=u16_order props=C10 kind=complete fns=ArrowNativeTypeOp<u16>::compare,ArrowNativeTypeOp<u16>::is_eq,ArrowNativeTypeOp::is_ne,ArrowNativeTypeOp::is_lt,ArrowNativeTypeOp::is_le,ArrowNativeTypeOp::is_gt,ArrowNativeTypeOp::is_ge
+int_order!(u16_order, u16);
+// @unit name=i32_order props=C10 kind=complete fns=ArrowNativeTypeOp<i32>::compare,ArrowNativeTypeOp<i32>::is_eq,ArrowNativeTypeOp::is_ne,ArrowNativeTypeOp::is_lt,ArrowNativeTypeOp::is_le,ArrowNativeTypeOp::is_gt,ArrowNativeTypeOp::is_ge
+int_order!(i32_order, i32);
+// @unit name=u32_order props=C10 kind=complete fns=ArrowNativeTypeOp<u32>::compare,ArrowNativeTypeOp<u32>::is_eq,ArrowNativeTypeOp::is_ne,ArrowNativeTypeOp::is_lt,ArrowNativeTypeOp::is_le,ArrowNativeTypeOp::is_gt,ArrowNativeTypeOp::is_ge
+int_order!(u32_order, u32);
+// @unit name=i64_order props=C10 kind=complete fns=ArrowNativeTypeOp<i64>::compare,ArrowNativeTypeOp<i64>::is_eq,ArrowNativeTypeOp::is_ne,ArrowNativeTypeOp::is_lt,ArrowNativeTypeOp::is_le,ArrowNativeTypeOp::is_gt,ArrowNativeTypeOp::is_ge
+int_order!(i64_order, i64);
+// @unit name=u64_order props=C10 kind=complete fns=ArrowNativeTypeOp<u64>::compare,ArrowNativeTypeOp<u64>::is_eq,ArrowNativeTypeOp::is_ne,ArrowNativeTypeOp::is_lt,ArrowNativeTypeOp::is_le,ArrowNativeTypeOp::is_gt,ArrowNativeTypeOp::is_ge
+int_order!(u64_order, u64);
+// @unit name=i128_order props=C10 kind=complete fns=ArrowNativeTypeOp<i128>::compare,ArrowNativeTypeOp<i128>::is_eq,ArrowNativeTypeOp::is_ne,ArrowNativeTypeOp::is_lt,ArrowNativeTypeOp::is_le,ArrowNativeTypeOp::is_gt,ArrowNativeTypeOp::is_ge
+int_order!(i128_order, i128);
+
+// Contract (C12, C10): for integer type T: ZERO = 0 and ONE = 1 (additive / multiplicative identities:
+// a + ZERO = a, a * ONE = a for all a), is_zero(a) <=> a = 0, and MIN_TOTAL_ORDER / MAX_TOTAL_ORDER are
+// the least / greatest element under `compare` (the identities of the max / min aggregations).
+macro_rules! int_consts {
+    ($name:ident, $t:ty) => {
+        #[kani::proof]
+        #[kani::stub(alloc::fmt::format, stub_format)]
+        fn $name() {
+            let a: $t = kani::any();
+            assert!(<$t as ArrowNativeTypeOp>::ZERO == 0 && <$t as ArrowNativeTypeOp>::ONE == 1);
+            assert!(a.is_zero() == (a == 0));
+            assert!(a.add_wrapping(<$t as ArrowNativeTypeOp>::ZERO) == a);
+            assert!(a.mul_wrapping(<$t as ArrowNativeTypeOp>::ONE) == a);
+            assert!(<$t as ArrowNativeTypeOp>::MIN_TOTAL_ORDER == <$t>::MIN && <$t as ArrowNativeTypeOp>::MAX_TOTAL_ORDER == <$t>::MAX);
+            assert!(<$t as ArrowNativeTypeOp>::MIN_TOTAL_ORDER.compare(a) != Ordering::Greater);
+            assert!(<$t as ArrowNativeTypeOp>::MAX_TOTAL_ORDER.compare(a) != Ordering::Less);
+            kani::cover!(a.is_zero());
+            kani::cover!(!a.is_zero());
+        }
+    };
+}
+// @unit name=i8_consts props=C12,C10 kind=complete fns=ArrowNativeTypeOp<i8>::is_zero,ArrowNativeTypeOp<i8>::ZERO,ArrowNativeTypeOp<i8>::ONE,ArrowNativeTypeOp<i8>::MIN_TOTAL_ORDER,ArrowNativeTypeOp<i8>::MAX_TOTAL_ORDER
+int_consts!(i8_consts, i8);
+// @unit name=u8_consts props=C12,C10 kind=complete fns=ArrowNativeTypeOp<u8>::is_zero,ArrowNativeTypeOp<u8>::ZERO,ArrowNativeTypeOp<u8>::ONE,ArrowNativeTypeOp<u8>::MIN_TOTAL_ORDER,ArrowNativeTypeOp<u8>::MAX_TOTAL_ORDER
+int_consts!(u8_consts, u8);
+// @unit name=i16_consts props=C12,C10 kind=complete fns=ArrowNativeTypeOp<i16>::is_zero,ArrowNativeTypeOp<i16>::ZERO,ArrowNativeTypeOp<i16>::ONE,ArrowNativeTypeOp<i16>::MIN_TOTAL_ORDER,ArrowNativeTypeOp<i16>::MAX_TOTAL_ORDER
+int_consts!(i16_consts, i16);
+// @unit name=u16_consts props=C12,C10 kind=complete fns=ArrowNativeTypeOp<u16>::is_zero,ArrowNativeTypeOp<u16>::ZERO,ArrowNativeTypeOp<u16>::ONE,ArrowNativeTypeOp<u16>::MIN_TOTAL_ORDER,ArrowNativeTypeOp<u16>::MAX_TOTAL_ORDER
+int_consts!(u16_consts, u16);
+// @unit name=i32_consts props=C12,C10 kind=complete fns=ArrowNativeTypeOp<i32>::is_zero,ArrowNativeTypeOp<i32>::ZERO,ArrowNativeTypeOp<i32>::ONE,ArrowNativeTypeOp<i32>::MIN_TOTAL_ORDER,ArrowNativeTypeOp<i32>::MAX_TOTAL_ORDER
+int_consts!(i32_consts, i32);
+// @unit name=u32_consts props=C12,C10 kind=complete fns=ArrowNativeTypeOp<u32>::is_zero,ArrowNativeTypeOp<u32>::ZERO,ArrowNativeTypeOp<u32>::ONE,ArrowNativeTypeOp<u32>::MIN_TOTAL_ORDER,ArrowNativeTypeOp<u32>::MAX_TOTAL_ORDER
+int_consts!(u32_consts, u32);
+// @unit name=i64_consts props=C12,C10 kind=complete fns=ArrowNativeTypeOp<i64>::is_zero,ArrowNativeTypeOp<i64>::ZERO,ArrowNativeTypeOp<i64>::ONE,ArrowNativeTypeOp<i64>::MIN_TOTAL_ORDER,ArrowNativeTypeOp<i64>::MAX_TOTAL_ORDER
+int_consts!(i64_consts, i64);
+// @unit name=u64_consts props=C12,C10 kind=complete fns=ArrowNativeTypeOp<u64>::is_zero,ArrowNativeTypeOp<u64>::ZERO,ArrowNativeTypeOp<u64>::ONE,ArrowNativeTypeOp<u64>::MIN_TOTAL_ORDER,ArrowNativeTypeOp<u64>::MAX_TOTAL_ORDER
+int_consts!(u64_consts, u64);
+// @unit name=i128_consts props=C12,C10 kind=complete fns=ArrowNativeTypeOp<i128>::is_zero,ArrowNativeTypeOp<i128>::ZERO,ArrowNativeTypeOp<i128>::ONE,ArrowNativeTypeOp<i128>::MIN_TOTAL_ORDER,ArrowNativeTypeOp<i128>::MAX_TOTAL_ORDER
+int_consts!(i128_consts, i128);
+
+// ================================================================================================
+// C10  floats: IEEE-754 totalOrder
+// ================================================================================================
+
+// Contract (C10): for all bit patterns a, b, c of float type F (NaNs of every payload and sign, +-0,
+// subnormals, infinities): compare(a,b) = cmp(key(a), key(b)) where key is the textbook totalOrder key
+// (sign-magnitude -> two's complement integer, spec.rs); is_eq(a,b) <=> compare = Equal <=> the bit
+// patterns are equal (so NaN is_eq the same NaN and -0 is_ne +0); is_ne/lt/le/gt/ge are the projections
+// of the key order; compare is reflexive, antisymmetric, transitive and total; on non-NaN operands it
+// extends the numeric `<`; -0 < +0; -NaN < -inf and +inf < +NaN.  ZERO/ONE bit patterns,
+// is_zero(a) <=> a = +-0, MIN_TOTAL_ORDER / MAX_TOTAL_ORDER are the least / greatest keys.
+macro_rules! float_order {
+    ($name:ident, $t:ty, $bits:ty, $key:ident, $one_bits:expr) => {
+        #[kani::proof]
+        fn $name() {
+            let (ba, bb, bc): ($bits, $bits, $bits) = (kani::any(), kani::any(), kani::any());
+            let (a, b, c) = (<$t>::from_bits(ba), <$t>::from_bits(bb), <$t>::from_bits(bc));
+            let (ka, kb, kc) = ($key(ba), $key(bb), $key(bc));
+            let want = if ka < kb { Ordering::Less } else if ka == kb { Ordering::Equal } else { Ordering::Greater };
+            assert!(a.compare(b) == want);
+            assert!((ka == kb) == (ba == bb)); // the key is injective on bit patterns
+            assert!(a.is_eq(b) == (ba == bb) && a.is_eq(b) == (want == Ordering::Equal));
+            assert!(a.is_ne(b) == (ba != bb));
+            assert!(a.is_lt(b) == (ka < kb));
+            assert!(a.is_le(b) == (ka <= kb));
+            assert!(a.is_gt(b) == (ka > kb));
+            assert!(a.is_ge(b) == (ka >= kb));
+            // order laws, three symbolic operands
+            assert!(a.compare(a) == Ordering::Equal);
+            assert!(a.compare(b) == b.compare(a).reverse());
+            if a.is_le(b) && b.is_le(c) { assert!(a.is_le(c)); }
+            if a.is_lt(b) && b.is_le(c) { assert!(a.is_lt(c)); }
+            assert!(a.is_le(b) || b.is_le(a));
+            let _ = kc;
+            // agreement with the numeric order away from NaN; zeros and NaNs placed as IEEE says
+            if !a.is_nan() && !b.is_nan() && a < b { assert!(want == Ordering::Less); }
+            let sign: $bits = !(<$bits>::MAX >> 1);
+            if ba == sign && bb == 0 { assert!(want == Ordering::Less && !a.is_eq(b)); }
+            if a.is_nan() && !b.is_nan() { assert!(want == if ba & sign != 0 { Ordering::Less } else { Ordering::Greater }); }
+            // constants
+            assert!(<$t as ArrowNativeTypeOp>::ZERO.to_bits() == 0 && <$t as ArrowNativeTypeOp>::ONE.to_bits() == $one_bits);
+            assert!(a.is_zero() == (ba << 1 == 0));
+            assert!(<$t as ArrowNativeTypeOp>::MIN_TOTAL_ORDER.to_bits() == <$bits>::MAX);
+            assert!(<$t as ArrowNativeTypeOp>::MAX_TOTAL_ORDER.to_bits() == <$bits>::MAX >> 1);
+            assert!(<$t as ArrowNativeTypeOp>::MIN_TOTAL_ORDER.compare(a) != Ordering::Greater);
+            assert!(<$t as ArrowNativeTypeOp>::MAX_TOTAL_ORDER.compare(a) != Ordering::Less);
+            kani::cover!(a.is_nan() && b.is_nan() && ba != bb);
+            kani::cover!(a.is_nan() && ba == bb);
+            kani::cover!(ba == sign && bb == 0);
+            kani::cover!(!a.is_nan() && !b.is_nan() && a < b);
+            kani::cover!(a.is_lt(b) && b.is_lt(c));
+        }
+    };
+}
+// @unit name=f16_order props=C10 kind=complete fns=ArrowNativeTypeOp<f16>::compare,ArrowNativeTypeOp<f16>::is_eq,ArrowNativeTypeOp<f16>::is_zero,ArrowNativeTypeOp::is_ne,ArrowNativeTypeOp::is_lt,ArrowNativeTypeOp::is_le,ArrowNativeTypeOp::is_gt,ArrowNativeTypeOp::is_ge
+float_order!(f16_order, f16, u16, key16, 0x3C00);
+// @unit name=f32_order props=C10 kind=complete fns=ArrowNativeTypeOp<f32>::compare,ArrowNativeTypeOp<f32>::is_eq,ArrowNativeTypeOp<f32>::is_zero,ArrowNativeTypeOp::is_ne,ArrowNativeTypeOp::is_lt,ArrowNativeTypeOp::is_le,ArrowNativeTypeOp::is_gt,ArrowNativeTypeOp::is_ge
+float_order!(f32_order, f32, u32, key32, 0x3F80_0000);
+// @unit name=f64_order props=C10 kind=complete fns=ArrowNativeTypeOp<f64>::compare,ArrowNativeTypeOp<f64>::is_eq,ArrowNativeTypeOp<f64>::is_zero,ArrowNativeTypeOp::is_ne,ArrowNativeTypeOp::is_lt,ArrowNativeTypeOp::is_le,ArrowNativeTypeOp::is_gt,ArrowNativeTypeOp::is_ge
+float_order!(f64_order, f64, u64, key64, 0x3FF0_0000_0000_0000);
+
+// ================================================================================================
+// C12  floats: IEEE result of the native operator, never an overflow error
+// ================================================================================================
+
+// Contract (C12): for all bit patterns a, b of float type F: add/sub/neg _checked never fail and
+// return, like the _wrapping forms, the IEEE-754 result of the native operator (bit-identical, or both
+// NaN); overflow goes to +-inf (pinned: MAX + MAX = +inf, -MAX - MAX = -inf), never to an error.
+// neg flips exactly the sign bit (also of NaNs and zeros).  Operand order pinned by a - 0 = a.
+// (Kani's NaN-generation checks inside the code are ignored by the runner: producing NaN is legal.)
+macro_rules! float_addsub {
+    ($name:ident, $t:ty, $bits:ty) => {
+        #[kani::proof]
+        fn $name() {
+            let (ba, bb): ($bits, $bits) = (kani::any(), kani::any());
+            let (a, b) = (<$t>::from_bits(ba), <$t>::from_bits(bb));
+            let same = |x: $t, y: $t| x.to_bits() == y.to_bits() || (x.is_nan() && y.is_nan());
+            let (s, d, n) = (a.add_checked(b), a.sub_checked(b), a.neg_checked());
+            assert!(matches!(s, Ok(v) if same(v, a + b)) && same(a.add_wrapping(b), a + b));
+            assert!(matches!(d, Ok(v) if same(v, a - b)) && same(a.sub_wrapping(b), a - b));
+            let sign: $bits = !(<$bits>::MAX >> 1);
+            assert!(matches!(n, Ok(v) if v.to_bits() == ba ^ sign) && a.neg_wrapping().to_bits() == ba ^ sign);
+            if ba == <$t>::MAX.to_bits() && bb == ba { assert!(a.add_wrapping(b).to_bits() == <$t>::INFINITY.to_bits()); }
+            if ba == (<$t>::MAX.to_bits() | sign) && bb == <$t>::MAX.to_bits() { assert!(a.sub_wrapping(b).to_bits() == <$t>::NEG_INFINITY.to_bits()); }
+            if bb == 0 && !a.is_nan() { assert!(a.sub_wrapping(b).to_bits() == ba); }
+            kani::cover!(a.is_nan());
+            kani::cover!(!a.is_nan() && !b.is_nan() && (a + b).is_nan());
+            kani::cover!(a.is_finite() && b.is_finite() && (a + b).is_infinite());
+            kani::cover!(a.is_finite() && b.is_finite() && (a - b).is_finite() && ba != 0 && bb != 0);
+            std::mem::forget((s, d, n));
+        }
+    };
+}
+// @unit name=f16_addsub props=C12 kind=complete fns=ArrowNativeTypeOp<f16>::add_checked,ArrowNativeTypeOp<f16>::add_wrapping,ArrowNativeTypeOp<f16>::sub_checked,ArrowNativeTypeOp<f16>::sub_wrapping,ArrowNativeTypeOp<f16>::neg_checked,ArrowNativeTypeOp<f16>::neg_wrapping timeout=1500
+float_addsub!(f16_addsub, f16, u16);
+// @unit name=f32_addsub props=C12 kind=complete fns=ArrowNativeTypeOp<f32>::add_checked,ArrowNativeTypeOp<f32>::add_wrapping,ArrowNativeTypeOp<f32>::sub_checked,ArrowNativeTypeOp<f32>::sub_wrapping,ArrowNativeTypeOp<f32>::neg_checked,ArrowNativeTypeOp<f32>::neg_wrapping
+float_addsub!(f32_addsub, f32, u32);
+// @unit name=f64_addsub props=C12 kind=complete fns=ArrowNativeTypeOp<f64>::add_checked,ArrowNativeTypeOp<f64>::add_wrapping,ArrowNativeTypeOp<f64>::sub_checked,ArrowNativeTypeOp<f64>::sub_wrapping,ArrowNativeTypeOp<f64>::neg_checked,ArrowNativeTypeOp<f64>::neg_wrapping timeout=1500
+float_addsub!(f64_addsub, f64, u64);
+
+// Contract (C12): for all bit patterns a, b: mul_checked never fails and returns, like mul_wrapping,
+// the IEEE-754 product of the native operator (bit-identical or both NaN); a * 1 = a for non-NaN a.
+macro_rules! float_mul {
+    ($name:ident, $t:ty, $bits:ty, $one_bits:expr) => {
+        #[kani::proof]
+        fn $name() {
+            let (ba, bb): ($bits, $bits) = (kani::any(), kani::any());
+            let (a, b) = (<$t>::from_bits(ba), <$t>::from_bits(bb));
+            let same = |x: $t, y: $t| x.to_bits() == y.to_bits() || (x.is_nan() && y.is_nan());
+            let m = a.mul_checked(b);
+            assert!(matches!(m, Ok(v) if same(v, a * b)) && same(a.mul_wrapping(b), a * b));
+            if bb == $one_bits && !a.is_nan() { assert!(a.mul_wrapping(b).to_bits() == ba); }
+            kani::cover!(a.is_finite() && b.is_finite() && (a * b).is_infinite());
+            kani::cover!(!a.is_nan() && !b.is_nan() && (a * b).is_nan());
+            std::mem::forget(m);
+        }
+    };
+}
+// @unit name=f16_mul props=C12 kind=complete fns=ArrowNativeTypeOp<f16>::mul_checked,ArrowNativeTypeOp<f16>::mul_wrapping timeout=600
+float_mul!(f16_mul, f16, u16, 0x3C00);
+// @unit name=f32_mul props=C12 kind=complete fns=ArrowNativeTypeOp<f32>::mul_checked,ArrowNativeTypeOp<f32>::mul_wrapping timeout=1500
+float_mul!(f32_mul, f32, u32, 0x3F80_0000);
+
+// Contract (C12): for all bit patterns a, b of float type F: div_checked / mod_checked return
+// Err(DivideByZero) <=> b is +0 or -0 (as the code documents), and Ok otherwise - never an
+// ArithmeticOverflow error, also for NaN / inf / subnormal operands; pow_checked never fails.
+// The VALUES of float `/`, `%` and powi are not decided here (CBMC's float divider does not finish,
+// fmod and powi are over-approximated): trusted IEEE / libm.  Operand order is pinned on constants:
+// 1 / 2 = 0.5.
+macro_rules! float_divmod_err {
+    ($name:ident, $t:ty, $bits:ty, $from:expr) => {
+        #[kani::proof]
+        #[kani::stub(alloc::fmt::format, stub_format)]
+        fn $name() {
+            let (ba, bb): ($bits, $bits) = (kani::any(), kani::any());
+            let (a, b) = (<$t>::from_bits(ba), <$t>::from_bits(bb));
+            let bzero = bb << 1 == 0;
+            let (d, m) = (a.div_checked(b), a.mod_checked(b));
+            assert!(is_dbz(&d) == bzero && d.is_ok() == !bzero);
+            assert!(is_dbz(&m) == bzero && m.is_ok() == !bzero);
+            let e: u32 = kani::any();
+            let p = a.pow_checked(e);
+            assert!(p.is_ok());
+            let f = $from;
+            let h = f(1.0).div_checked(f(2.0));
+            assert!(matches!(h, Ok(v) if v.to_bits() == f(0.5).to_bits()));
+            assert!(f(1.0).div_wrapping(f(2.0)).to_bits() == f(0.5).to_bits());
+            kani::cover!(bzero && bb != 0);
+            kani::cover!(!bzero && b.is_nan());
+            kani::cover!(!bzero && a.is_infinite() && b.is_infinite());
+            std::mem::forget((d, m, p, h));
+        }
+    };
+}
+// @unit name=f16_divmod_err props=C12 kind=complete fns=ArrowNativeTypeOp<f16>::div_checked,ArrowNativeTypeOp<f16>::mod_checked,ArrowNativeTypeOp<f16>::pow_checked
+float_divmod_err!(f16_divmod_err, f16, u16, f16::from_f32);
+// @unit name=f32_divmod_err props=C12 kind=complete fns=ArrowNativeTypeOp<f32>::div_checked,ArrowNativeTypeOp<f32>::mod_checked,ArrowNativeTypeOp<f32>::pow_checked
+float_divmod_err!(f32_divmod_err, f32, u32, |x: f32| x);
+// @unit name=f64_divmod_err props=C12 kind=complete fns=ArrowNativeTypeOp<f64>::div_checked,ArrowNativeTypeOp<f64>::mod_checked,ArrowNativeTypeOp<f64>::pow_checked
+float_divmod_err!(f64_divmod_err, f64, u64, |x: f32| x as f64);
+
+// ================================================================================================
+// i256, IntervalDayTime, IntervalMonthDayNano through the same native_type_op! expansion
+// ================================================================================================
+#[path = "/verif/kani/support/i256_spec.rs"]
+mod i256_spec;
+use i256_spec::*;
+
+fn any256() -> i256 { i256::from_parts(kani::any(), kani::any()) }
+fn d4(x: i256) -> D4 { let (lo, hi) = x.to_parts(); digits(lo, hi) }
+
+// Contract (C12): i256 as ArrowNativeTypeOp, for all 256-bit a, b, against the digit model of
+// support/i256_spec.rs (exact schoolbook sum / difference, top digit signed):
+//   add/sub/neg _checked = Ok(s) <=> the exact result lies in [-2^255, 2^255), and then s is it; otherwise
+//   Err(ArithmeticOverflow); _wrapping = exact result mod 2^256; neg_checked fails exactly for MIN.
+// @unit name=i256_native_addsub props=C12 kind=complete fns=ArrowNativeTypeOp<i256>::add_checked,ArrowNativeTypeOp<i256>::add_wrapping,ArrowNativeTypeOp<i256>::sub_checked,ArrowNativeTypeOp<i256>::sub_wrapping,ArrowNativeTypeOp<i256>::neg_checked,ArrowNativeTypeOp<i256>::neg_wrapping
+#[kani::proof]
+#[kani::stub(alloc::fmt::format, stub_format)]
+fn i256_native_addsub() {
+    let (a, b) = (any256(), any256());
+    let (s, so) = add_spec(d4(a), d4(b));
+    let (t, to) = sub_spec(d4(a), d4(b));
+    let (n, no) = sub_spec(ZERO4, d4(a));
+    let (ra, rs, rn) = (a.add_checked(b), a.sub_checked(b), a.neg_checked());
+    assert!(matches!(ra, Ok(v) if d4(v) == s) == !so && is_ovf(&ra) == so && d4(a.add_wrapping(b)) == s);
+    assert!(matches!(rs, Ok(v) if d4(v) == t) == !to && is_ovf(&rs) == to && d4(a.sub_wrapping(b)) == t);
+    assert!(matches!(rn, Ok(v) if d4(v) == n) == !no && is_ovf(&rn) == no && d4(a.neg_wrapping()) == n);
+    assert!(no == (d4(a) == MIN4));
+    kani::cover!(so && is_neg(d4(a)));
+    kani::cover!(so && !is_neg(d4(a)));
+    kani::cover!(to);
+    kani::cover!(no);
+    kani::cover!(!so && !to && d4(a)[0].checked_add(d4(b)[0]).is_none());
+    std::mem::forget((ra, rs, rn));
+}
+
+// Contract (C10, C12): i256 as ArrowNativeTypeOp: compare(a,b) = mathematical order of the 256-bit two's
+// complement values (digit model); is_eq/ne/lt/le/gt/ge its projections; is_zero <=> all digits 0;
+// ZERO = 0, ONE = 1; MIN_TOTAL_ORDER = -2^255 and MAX_TOTAL_ORDER = 2^255 - 1 are least / greatest.
+// @unit name=i256_native_order props=C10,C12 kind=complete fns=ArrowNativeTypeOp<i256>::compare,ArrowNativeTypeOp<i256>::is_eq,ArrowNativeTypeOp<i256>::is_zero,ArrowNativeTypeOp::is_lt,ArrowNativeTypeOp::is_le,ArrowNativeTypeOp::is_gt,ArrowNativeTypeOp::is_ge,ArrowNativeTypeOp::is_ne tier=thorough was_quick=1 confirmed=0
+#[kani::proof]
+#[kani::unwind(34)]
+fn i256_native_order() {
+    let (a, b) = (any256(), any256());
+    let want = cmp_spec(d4(a), d4(b));
+    assert!(a.compare(b) == want);
+    assert!(a.is_eq(b) == (d4(a) == d4(b)) && a.is_eq(b) == (want == Ordering::Equal) && a.is_ne(b) == !a.is_eq(b));
+    assert!(a.is_lt(b) == (want == Ordering::Less) && a.is_le(b) == (want != Ordering::Greater));
+    assert!(a.is_gt(b) == (want == Ordering::Greater) && a.is_ge(b) == (want != Ordering::Less));
+    assert!(a.is_zero() == (d4(a) == ZERO4));
+    assert!(d4(<i256 as ArrowNativeTypeOp>::ZERO) == ZERO4 && d4(<i256 as ArrowNativeTypeOp>::ONE) == [1, 0, 0, 0]);
+    assert!(d4(<i256 as ArrowNativeTypeOp>::MIN_TOTAL_ORDER) == MIN4 && d4(<i256 as ArrowNativeTypeOp>::MAX_TOTAL_ORDER) == MAX4);
+    assert!(<i256 as ArrowNativeTypeOp>::MIN_TOTAL_ORDER.compare(a) != Ordering::Greater);
+    assert!(<i256 as ArrowNativeTypeOp>::MAX_TOTAL_ORDER.compare(a) != Ordering::Less);
+    kani::cover!(want == Ordering::Less && d4(a)[3] == d4(b)[3] && d4(a)[2] == d4(b)[2]);
+    kani::cover!(want == Ordering::Greater && is_neg(d4(b)) && !is_neg(d4(a)));
+    kani::cover!(want == Ordering::Equal);
+    kani::cover!(a.is_zero());
+}
+
+fn div_rem_word_def(hi: u64, lo: u64, divisor: u64) -> (u64, u64) {
+    if hi == 0 { return (lo / divisor, lo % divisor); }
+    let x = (u128::from(hi) << 64) + u128::from(lo);
+    let y = u128::from(divisor);
+    ((x / y) as u64, (x % y) as u64)
+}
+// Contract (C12), bounded: i256 mul / div / mod through ArrowNativeTypeOp for operands that are sign
+// extensions of i32 values (products / quotients then fit i128, the spec type): mul_checked = Ok(a*b),
+// mul_wrapping = a*b; div_checked / mod_checked = Err(DivideByZero) <=> b = 0, otherwise Ok(q), Ok(r) with
+// q*b + r = a, |r| < |b|, r = 0 or sign(r) = sign(a); div_wrapping / mod_wrapping equal them for b != 0.
+// Pinned full-width points: MIN * -1 and MIN / -1 and MIN % -1 are Err(ArithmeticOverflow), the
+// wrapping forms give MIN, MIN, 0; pow_checked(2, 255) is Err(ArithmeticOverflow), pow_checked(2, 254) Ok.
+// Stub: arrow_buffer::bigint::div::div_rem_word (inline asm) -> its portable definition.
+// @unit name=i256_native_muldiv props=C12 kind=bounded bound=operands_in_i32_range_(plus_pinned_full-width_points) fns=ArrowNativeTypeOp<i256>::mul_checked,ArrowNativeTypeOp<i256>::mul_wrapping,ArrowNativeTypeOp<i256>::div_checked,ArrowNativeTypeOp<i256>::div_wrapping,ArrowNativeTypeOp<i256>::mod_checked,ArrowNativeTypeOp<i256>::mod_wrapping,ArrowNativeTypeOp<i256>::pow_checked timeout=900 tier=thorough was_quick=1 confirmed=0
+#[kani::proof]
+#[kani::unwind(10)]
+#[kani::stub(alloc::fmt::format, stub_format)]
+#[kani::stub(arrow_buffer::bigint::div::div_rem_word, div_rem_word_def)]
+fn i256_native_muldiv() {
+    let (a, b): (i32, i32) = (kani::any(), kani::any());
+    let (x, y) = (i256::from_i128(a as i128), i256::from_i128(b as i128));
+    let p = i256::from_i128(a as i128 * b as i128);
+    let rm = x.mul_checked(y);
+    assert!(matches!(rm, Ok(v) if v == p) && x.mul_wrapping(y) == p);
+    let (rd, rr) = (x.div_checked(y), x.mod_checked(y));
+    assert!(is_dbz(&rd) == (b == 0) && is_dbz(&rr) == (b == 0));
+    if b != 0 {
+        match (&rd, &rr) {
+            (Ok(q), Ok(r)) => {
+                let (qv, rv) = (q.to_i128(), r.to_i128());
+                assert!(qv.is_some() && rv.is_some());
+                let (qv, rv, av, bv) = (qv.unwrap(), rv.unwrap(), a as i128, b as i128);
+                assert!(qv.abs() <= 1 << 31 && rv.abs() < bv.abs());
+                assert!(qv * bv + rv == av && (rv == 0 || (rv < 0) == (av < 0)));
+                assert!(x.div_wrapping(y) == *q && x.mod_wrapping(y) == *r);
+            }
+            _ => assert!(false),
+        }
+    }
+    let m1 = i256::MINUS_ONE;
+    let (e1, e2, e3) = (i256::MIN.mul_checked(m1), i256::MIN.div_checked(m1), i256::MIN.mod_checked(m1));
+    assert!(is_ovf(&e1) && is_ovf(&e2) && is_ovf(&e3));
+    assert!(i256::MIN.mul_wrapping(m1) == i256::MIN && i256::MIN.div_wrapping(m1) == i256::MIN && i256::MIN.mod_wrapping(m1) == i256::ZERO);
+    let two = i256::from_i128(2);
+    let (p1, p2) = (two.pow_checked(255), two.pow_checked(254));
+    assert!(is_ovf(&p1) && p2.is_ok());
+    kani::cover!(b == 0);
+    kani::cover!(b < -1 && a > 1000);
+    std::mem::forget((rm, rd, rr, e1, e2, e3, p1, p2));
+}
+
+// Contract (C12, C10): IntervalDayTime and IntervalMonthDayNano as ArrowNativeTypeOp: add/sub/neg
+// _checked are field-wise exact (exact field results in i128): Ok(v) <=> every field fits its type, and
+// then v holds the exact fields; otherwise Err(ArithmeticOverflow); _wrapping = every field mod 2^32 /
+// 2^64; compare = lexicographic order on the fields in declaration order, is_* its projections,
+// is_eq <=> all fields equal; is_zero <=> all fields 0; ZERO / ONE field-wise 0 / 1; MIN/MAX_TOTAL_ORDER
+// are least / greatest; div/mod _checked: Err(DivideByZero) <=> EVERY divisor field is 0 (is_zero of
+// the struct) - a divisor with only SOME zero field is reported as ArithmeticOverflow (the per-field
+// checked_div returns None), never as a value.
+// @unit name=interval_native_ops props=C12,C10 kind=complete fns=ArrowNativeTypeOp<IntervalDayTime>::add_checked,ArrowNativeTypeOp<IntervalDayTime>::sub_checked,ArrowNativeTypeOp<IntervalDayTime>::neg_checked,ArrowNativeTypeOp<IntervalDayTime>::compare,ArrowNativeTypeOp<IntervalMonthDayNano>::add_checked,ArrowNativeTypeOp<IntervalMonthDayNano>::sub_checked,ArrowNativeTypeOp<IntervalMonthDayNano>::neg_checked,ArrowNativeTypeOp<IntervalMonthDayNano>::compare,ArrowNativeTypeOp<IntervalMonthDayNano>::div_checked
+#[kani::proof]
+#[kani::stub(alloc::fmt::format, stub_format)]
+fn interval_native_ops() {
+    let f32w = |x: i128| x >= i32::MIN as i128 && x <= i32::MAX as i128;
+    let f64w = |x: i128| x >= i64::MIN as i128 && x <= i64::MAX as i128;
+    let ord = |a: i128, b: i128| if a < b { Ordering::Less } else if a == b { Ordering::Equal } else { Ordering::Greater };
+    // ---- IntervalMonthDayNano
+    let a = IntervalMonthDayNano::new(kani::any(), kani::any(), kani::any());
+    let b = IntervalMonthDayNano::new(kani::any(), kani::any(), kani::any());
+    let w = |x: IntervalMonthDayNano| (x.months as i128, x.days as i128, x.nanoseconds as i128);
+    let ((am, ad, an), (bm, bd, bn)) = (w(a), w(b));
+    macro_rules! chk3 {
+        ($r:expr, $wr:expr, $e:expr) => {{
+            let (r, (em, ed, en)) = ($r, $e);
+            let ok = f32w(em) && f32w(ed) && f64w(en);
+            assert!(matches!(r, Ok(v) if w(v) == (em, ed, en)) == ok && is_ovf(&r) == !ok);
+            let v = $wr;
+            assert!(v.months == em as i32 && v.days == ed as i32 && v.nanoseconds == en as i64);
+            std::mem::forget(r);
+            ok
+        }};
+    }
+    let ok_a = chk3!(a.add_checked(b), a.add_wrapping(b), (am + bm, ad + bd, an + bn));
+    let ok_s = chk3!(a.sub_checked(b), a.sub_wrapping(b), (am - bm, ad - bd, an - bn));
+    let ok_n = chk3!(a.neg_checked(), a.neg_wrapping(), (-am, -ad, -an));
+    let want = match ord(am, bm) { Ordering::Equal => match ord(ad, bd) { Ordering::Equal => ord(an, bn), o => o }, o => o };
+    assert!(a.compare(b) == want && a.is_eq(b) == (w(a) == w(b)) && a.is_ne(b) == (w(a) != w(b)));
+    assert!(a.is_lt(b) == (want == Ordering::Less) && a.is_le(b) == (want != Ordering::Greater));
+    assert!(a.is_gt(b) == (want == Ordering::Greater) && a.is_ge(b) == (want != Ordering::Less));
+    assert!(a.is_zero() == (w(a) == (0, 0, 0)));
+    assert!(w(<IntervalMonthDayNano as ArrowNativeTypeOp>::ZERO) == (0, 0, 0) && w(<IntervalMonthDayNano as ArrowNativeTypeOp>::ONE) == (1, 1, 1));
+    assert!(<IntervalMonthDayNano as ArrowNativeTypeOp>::MIN_TOTAL_ORDER.compare(a) != Ordering::Greater);
+    assert!(<IntervalMonthDayNano as ArrowNativeTypeOp>::MAX_TOTAL_ORDER.compare(a) != Ordering::Less);
+    let (dv, md) = (a.div_checked(b), a.mod_checked(b));
+    let all_zero = w(b) == (0, 0, 0);
+    let some_zero = bm == 0 || bd == 0 || bn == 0;
+    assert!(is_dbz(&dv) == all_zero && is_dbz(&md) == all_zero);
+    if some_zero && !all_zero { assert!(is_ovf(&dv) && is_ovf(&md)); }
+    // ---- IntervalDayTime
+    let c = IntervalDayTime::new(kani::any(), kani::any());
+    let e = IntervalDayTime::new(kani::any(), kani::any());
+    let w2 = |x: IntervalDayTime| (x.days as i128, x.milliseconds as i128);
+    let ((cd, cm), (ed_, em_)) = (w2(c), w2(e));
+    macro_rules! chk2 {
+        ($r:expr, $wr:expr, $e:expr) => {{
+            let (r, (xd, xm)) = ($r, $e);
+            let ok = f32w(xd) && f32w(xm);
+            assert!(matches!(r, Ok(v) if w2(v) == (xd, xm)) == ok && is_ovf(&r) == !ok);
+            let v = $wr;
+            assert!(v.days == xd as i32 && v.milliseconds == xm as i32);
+            std::mem::forget(r);
+            ok
+        }};
+    }
+    let ok_c = chk2!(c.add_checked(e), c.add_wrapping(e), (cd + ed_, cm + em_));
+    let _ = chk2!(c.sub_checked(e), c.sub_wrapping(e), (cd - ed_, cm - em_));
+    let _ = chk2!(c.neg_checked(), c.neg_wrapping(), (-cd, -cm));
+    let want2 = match ord(cd, ed_) { Ordering::Equal => ord(cm, em_), o => o };
+    assert!(c.compare(e) == want2 && c.is_eq(e) == (w2(c) == w2(e)) && c.is_lt(e) == (want2 == Ordering::Less) && c.is_ge(e) == (want2 != Ordering::Less));
+    assert!(c.is_zero() == (w2(c) == (0, 0)));
+    kani::cover!(!ok_a && f32w(am + bm) && f32w(ad + bd));
+    kani::cover!(!ok_s && f64w(an - bn));
+    kani::cover!(!ok_n && a.months != i32::MIN);
+    kani::cover!(ok_a && ok_s && want == Ordering::Less && am == bm && ad == bd);
+    kani::cover!(some_zero && !all_zero);
+    kani::cover!(all_zero);
+    kani::cover!(!ok_c);
+    kani::cover!(want2 == Ordering::Greater && cd == ed_);
+    std::mem::forget((dv, md));
+}
